@@ -36,7 +36,7 @@ def valid_doc(seed, dm):
 
 FAULTS = ['dangling-target', 'initial-attr-outside', 'history-no-default', 'history-two-defaults', 'history-default-outside', 'non-orthogonal-targets',
           'duplicate-id', 'initial-element-with-event', 'initial-element-with-cond', 'unknown-datamodel', 'initial-element-target-outside', 'initial-attr-nonexistent',
-          'target-own-ancestor-and-descendant', 'transition-to-two-children-of-compound-via-initial']
+          'target-own-ancestor-and-descendant', 'transition-to-two-children-of-compound-via-initial', 'non-orthogonal-pair-among-three-targets']
 
 
 def faulty_doc(seed, dm):
@@ -77,6 +77,14 @@ def faulty_doc(seed, dm):
         ts = [t for t in ch.transitions()]
         if not cs or not ts: return None
         s = rng.choice(cs); rng.choice(ts).targets = [s.states()[0].id, s.states()[1].id]
+    elif kind == 'non-orthogonal-pair-among-three-targets':
+        # two children of a compound state plus an id that is compatible with either of them (their parent), in any attribute order
+        cs = [s for s in proper if s.kind == 'state' and len(s.states()) >= 2]
+        ts = [t for t in ch.transitions()]
+        if not cs or not ts: return None
+        s = rng.choice(cs); tg = [s.states()[0].id, s.id, s.states()[1].id]
+        if rng.random() < 0.5: rng.shuffle(tg)
+        rng.choice(ts).targets = tg
     elif kind == 'transition-to-two-children-of-compound-via-initial':
         cs = [s for s in proper + [ch.root] if s.kind in ('state', 'scxml') and len(s.states()) >= 2]
         if not cs: return None
@@ -235,7 +243,7 @@ def main(tier, replay):
     shutil.rmtree(outroot, ignore_errors=True)
     chk.add('documents', dict(stats)); chk.add('faults_reported_fatal', dict(reported)); chk.add('faults_not_reported_and_run', dict(passed)); chk.add('xml_mutants', dict(mv))
     chk.rule = ('valid-by-construction documents (incl. id-less atomic states/finals, multi-target deep initial attributes, real lua/promela expressions) must get no FATAL issue and no "Syntax error" warning; '
-                'single-fault documents (14 fault kinds) that get no FATAL issue are run with histories on engines large and fast under ASan/UBSan with the legality monitor and through ChartToC/ChartToPromela; '
+                'single-fault documents (15 fault kinds) that get no FATAL issue are run with histories on engines large and fast under ASan/UBSan with the legality monitor and through ChartToC/ChartToPromela; '
                 'XML mutants are validated for robustness. distinct_nontrivial = documents validated')
     chk.assumptions = ['"valid" = valid by the generator\'s construction rules (written from the Recommendation)', 'a reported fault is counted, not judged; a missed fault only matters when it misbehaves']
     chk.min_distinct = 100
